@@ -324,6 +324,10 @@ def handle (st : DState) (toks : List String) : DState × Option String :=
     match parseNat t with
     | some t => ({ st with cfg := { st.cfg with assocTables := st.cfg.assocTables ++ [t] } }, none)
     | none => (st, bad)
+  | ["nullkeep", t, j] =>
+    match parseNat t, parseNat j with
+    | some t, some j => ({ st with cfg := { st.cfg with nullKeep := st.cfg.nullKeep ++ [(t, j)] } }, none)
+    | _, _ => (st, bad)
   | "ev" :: rest =>
     match parseEv rest with
     | some e =>
